@@ -5,7 +5,8 @@
    the driver instantiates it with ChaCha20 / HMAC-SHA256 (`ldk` below) and LDK's key derivations,
    and must reproduce the real packets byte for byte.  ECDH / ephemeral-key blinding
    (`construct_onion_keys_generic`) is NOT modelled: per-hop shared secrets are inputs.
-   Attribution data (hold times) is not modelled in this version.  No Mathlib. -/
+   Attribution data (hold times) has an EXECUTABLE mirror here (section "Attribution data") that is
+   validated against the real code by the correspondence; no theorem is stated about it.  No Mathlib. -/
 import LdkModel.Prim.Hmac
 import LdkModel.Prim.ChaCha20
 import LdkModel.Generated.Consts
@@ -219,6 +220,132 @@ def decodeGo (C : OnionCrypto) : Nat → List FailKeys → Bytes → FailDecoded
 def decodeFailure (C : OnionCrypto) (keys : List FailKeys) (pkt : Bytes) : FailDecoded :=
   if pkt.length < 32 then .unattributable else decodeGo C 0 keys pkt
 
+/-! ## Attribution data (hold times) — EXECUTABLE MODEL ONLY: validated against the real code by the
+   c14 correspondence, no theorem is stated about it in this version -/
+
+/-- mirrors lightning/src/ln/onion_utils.rs::AttributionData (`MAX_HOPS * HOLD_TIME_LEN` bytes of
+    hold times, `HMAC_LEN * HMAC_COUNT` bytes of truncated HMACs in the triangular layout) -/
+structure Attr where
+  holdTimes : Bytes
+  hmacs : Bytes
+  deriving DecidableEq
+
+def slice (b : Bytes) (off len : Nat) : Bytes := (b.drop off).take len
+/-- `copy_from_slice` / `copy_within` target: overwrite `v.length` bytes at `off` -/
+def setSlice (b : Bytes) (off : Nat) (v : Bytes) : Bytes := b.take off ++ v ++ b.drop (off + v.length)
+
+-- mirrors AttributionData::new
+def Attr.new : Attr := ⟨zeros (MAX_HOPS * HOLD_TIME_LEN), zeros (HMAC_LEN * HMAC_COUNT)⟩
+
+-- mirrors AttributionData::get_hmac
+def Attr.getHmac (a : Attr) (idx : Nat) : Bytes := slice a.hmacs (idx * HMAC_LEN) HMAC_LEN
+
+/-- mirrors AttributionData::write_downstream_hmacs: the bytes fed to the HMAC engine -/
+def Attr.downstreamHmacs (a : Attr) (position : Nat) : Bytes :=
+  ((List.range position).foldl (fun (acc : Bytes × Nat) j => (acc.1 ++ a.getHmac acc.2, acc.2 + (MAX_HOPS - j - 1)))
+    ([], MAX_HOPS + MAX_HOPS - position - 1)).1
+
+/-- the truncated HMAC for an assumed `position` (0 = final node) -/
+def Attr.hmacFor (C : OnionCrypto) (a : Attr) (um message : Bytes) (position : Nat) : Bytes :=
+  (norm32 (C.mac um (message ++ a.holdTimes.take ((position + 1) * HOLD_TIME_LEN) ++ a.downstreamHmacs position))).take HMAC_LEN
+
+-- mirrors AttributionData::add_hmacs
+def Attr.addHmacs (C : OnionCrypto) (a : Attr) (um message : Bytes) : Attr :=
+  (List.range MAX_HOPS).foldl (fun a hmacIdx =>
+    { a with hmacs := setSlice a.hmacs (hmacIdx * HMAC_LEN) (a.hmacFor C um message (MAX_HOPS - hmacIdx - 1)) }) a
+
+def be32 (n : Nat) : Bytes :=
+  [UInt8.ofNat (n / 16777216 % 256), UInt8.ofNat (n / 65536 % 256), UInt8.ofNat (n / 256 % 256), UInt8.ofNat (n % 256)]
+
+-- mirrors AttributionData::update
+def Attr.update (C : OnionCrypto) (a : Attr) (um message : Bytes) (holdTime : Nat) : Attr :=
+  Attr.addHmacs C { a with holdTimes := setSlice a.holdTimes 0 (be32 holdTime) } um message
+
+/-- mirrors AttributionData::crypt: one ammagext stream over hold times then HMACs -/
+def Attr.crypt (C : OnionCrypto) (a : Attr) (ammagext : Bytes) : Attr :=
+  ⟨xorB a.holdTimes (ks C ammagext 0 a.holdTimes.length),
+   xorB a.hmacs (ks C ammagext a.holdTimes.length a.hmacs.length)⟩
+
+/-- mirrors AttributionData::shift_right (`copy_within` = memmove: sources are read before writing) -/
+def Attr.shiftRight (a : Attr) : Attr :=
+  let ht := setSlice a.holdTimes HOLD_TIME_LEN (a.holdTimes.take ((MAX_HOPS - 1) * HOLD_TIME_LEN))
+  let step (st : Bytes × Nat × Nat × Nat) (_ : Nat) : Bytes × Nat × Nat × Nat :=
+    let (h, src, dst, len) := st
+    (setSlice h (dst * HMAC_LEN) (slice h (src * HMAC_LEN) (len * HMAC_LEN)), src - (len + 2), dst - (len + 1), len + 1)
+  ⟨ht, ((List.range (MAX_HOPS - 1)).foldl step (a.hmacs, HMAC_COUNT - 2, HMAC_COUNT - 1, 1)).1⟩
+
+/-- mirrors AttributionData::shift_left -/
+def Attr.shiftLeft (a : Attr) : Attr :=
+  let ht := setSlice a.holdTimes 0 (a.holdTimes.drop HOLD_TIME_LEN)
+  let step (st : Bytes × Nat × Nat × Nat) (_ : Nat) : Bytes × Nat × Nat × Nat :=
+    let (h, src, dst, len) := st
+    (setSlice h (dst * HMAC_LEN) (slice h (src * HMAC_LEN) (len * HMAC_LEN)), src + len, dst + len + 1, len - 1)
+  ⟨ht, ((List.range (MAX_HOPS - 1)).foldl step (a.hmacs, MAX_HOPS, 1, MAX_HOPS - 1)).1⟩
+
+/-- mirrors AttributionData::verify -/
+def Attr.verify (C : OnionCrypto) (a : Attr) (um message : Bytes) (position : Nat) : Option Nat :=
+  if a.hmacFor C um message position = a.getHmac (MAX_HOPS - position - 1)
+  then some ((a.holdTimes.take HOLD_TIME_LEN).foldl (fun acc x => acc * 256 + x.toNat) 0) else none
+
+structure FailKeysX where
+  um : Bytes
+  ammag : Bytes
+  ammagext : Bytes
+
+def FailKeysX.base (k : FailKeysX) : FailKeys := ⟨k.um, k.ammag⟩
+
+/-- mirrors build_failure_packet including update_attribution_data + crypt -/
+def buildFailureX (C : OnionCrypto) (k : FailKeysX) (code : Nat) (data : Bytes) (holdTime : Nat) : Bytes × Attr :=
+  let u := buildUnencryptedFailure C k.base Ldk.DEFAULT_MIN_FAILURE_PACKET_LEN code data
+  (wrapFailure C k.base u, (Attr.new.update C k.um u holdTime).crypt C k.ammagext)
+
+/-- mirrors process_failure_packet + crypt_failure_packet (a relaying hop); the LN_MAX_MSG_LEN drop of
+    the attribution data (failure data beyond ~64 kB) is not modelled -/
+def relayFailureX (C : OnionCrypto) (k : FailKeysX) (pkt : Bytes) (attr : Option Attr) (holdTime : Nat) : Bytes × Attr :=
+  let a := match attr with | some a => a.shiftRight | none => Attr.new
+  (wrapFailure C k.base pkt, (a.update C k.um pkt holdTime).crypt C k.ammagext)
+
+/-- the hop loop of process_onion_failure_inner with attribution data: hold times of the hops up to
+    the failing one (or up to the first hop whose attribution HMAC fails) -/
+def decodeGoX (C : OnionCrypto) (count : Nat) : Nat → List FailKeysX → Bytes → Option Attr → Bool → List Nat → FailDecoded × List Nat
+  | _, [], _, _, _, holds => (.unattributable, holds)
+  | i, k :: rest, pkt, attr, failed, holds =>
+    let p := wrapFailure C k.base pkt
+    let attr := attr.map (·.crypt C k.ammagext)
+    let (attr, failed, holds) :=
+      if failed then (attr, failed, holds) else
+      match attr with
+      | none => (attr, true, holds)
+      | some a =>
+        if i < count then
+          match a.verify C k.um p (count - i - 1) with
+          | some h => (some a.shiftLeft, false, holds ++ [h])
+          | none => (attr, true, holds)
+        else (attr, failed, holds)
+    if failMacOk C k.base p then (parseFailure i p, holds) else decodeGoX C count (i + 1) rest p attr failed holds
+
+def decodeFailureX (C : OnionCrypto) (keys : List FailKeysX) (pkt : Bytes) (attr : Option Attr) : FailDecoded × List Nat :=
+  if pkt.length < 32 then (.unattributable, []) else
+  decodeGoX C (min keys.length MAX_HOPS) 0 keys pkt attr false []
+
+-- mirrors lightning/src/ln/onion_utils.rs::process_fulfill_attribution_data
+def fulfillAttr (C : OnionCrypto) (k : FailKeysX) (attr : Option Attr) (holdTime : Nat) : Attr :=
+  let a := match attr with | some a => a.shiftRight | none => Attr.new
+  (a.update C k.um [] holdTime).crypt C k.ammagext
+
+def decodeFulfillGo (C : OnionCrypto) (count : Nat) : Nat → List FailKeysX → Attr → List Nat → List Nat
+  | _, [], _, holds => holds
+  | i, k :: rest, a, holds =>
+    if i ≥ count then holds else
+    let a := a.crypt C k.ammagext
+    match a.verify C k.um [] (count - i - 1) with
+    | some h => decodeFulfillGo C count (i + 1) rest a.shiftLeft (holds ++ [h])
+    | none => holds
+
+-- mirrors lightning/src/ln/onion_utils.rs::decode_fulfill_attribution_data
+def decodeFulfillAttr (C : OnionCrypto) (keys : List FailKeysX) (a : Attr) : List Nat :=
+  decodeFulfillGo C (min keys.length MAX_HOPS) 0 keys a []
+
 /-! ## Concrete instantiation: ChaCha20 (zero nonce) / HMAC-SHA256 and LDK's key derivations -/
 
 /-- how many keystream bytes are prepared per key (2 × ONION_DATA_LEN fits); positions beyond are
@@ -242,6 +369,10 @@ def keysOfSecret (ss : Bytes) : HopKeys := ⟨Prim.hmacSha256 (tag "rho") ss, Pr
 
 -- mirrors lightning/src/ln/onion_utils.rs::gen_um_from_shared_secret / gen_ammag_from_shared_secret
 def failKeysOfSecret (ss : Bytes) : FailKeys := ⟨Prim.hmacSha256 (tag "um") ss, Prim.hmacSha256 (tag "ammag") ss⟩
+
+-- ... plus gen_ammagext_from_shared_secret
+def failKeysXOfSecret (ss : Bytes) : FailKeysX :=
+  ⟨Prim.hmacSha256 (tag "um") ss, Prim.hmacSha256 (tag "ammag") ss, Prim.hmacSha256 (tag "ammagext") ss⟩
 
 def hopOfSecret (ss payload : Bytes) : Hop :=
   let k := keysOfSecret ss
